@@ -1,6 +1,6 @@
 (* Model of the glue around sympy in pddl_plus_parser/models/numeric_symbolic_operations.py
-   (tree AFTER the proposed repairs of D21: rounding before int(), zero factors, Rational atoms, general
-   integer powers, fluent names must start with a letter).
+   (tree AFTER the proposed repairs D21a-D21k, D21, D21b: rounding before int(), zero factors, Rational atoms,
+   general integer powers, function names must start with a letter, injective symbol names).
 
    sympy itself (parse_expr / simplify / expand / subs) is NOT modelled: its result arrives as a tree
    [stree] (a Gallina copy of expr.func / expr.args, numbers as exact rationals).  Modelled here:
@@ -148,7 +148,7 @@ Definition extract_atom (d : nat) (flag : bool) (m : list (string * string)) (e 
       if flag && pnum_is_zero x then Ok None else Ok (Some (PNum x))
   | SRat p q =>
       let v := Qmake p q in
-      let x := number_atom d v v in
+      let x := number_atom d v (sig15 v) in      (* Float(expression): printed like a Float *)
       if flag && pnum_is_zero x then Ok None else Ok (Some (PNum x))
   | SInt z => Ok (Some (PNum (pint z)))
   | SSym s => match lookup_sym m s with Some t => Ok (Some (PFl t)) | None => Err EKey end
@@ -289,10 +289,33 @@ Fixpoint replace_all (fuel : nat) (pat rep t : text) : text :=
       end
   end.
 
-(* the dictionary after the call: the given entries, then one per new fluent (in the order [order] in which
-   the implementation's set happened to iterate) *)
-Definition transform_map (given : list (string * string)) (new_in_order : list string) : list (string * string) :=
-  given ++ map (fun v => (v, symbol_name v)) new_in_order.
+(* sorted(pddl_variables): code-point order *)
+Fixpoint insert_sorted (x : string) (l : list string) : list string :=
+  match l with
+  | [] => [x]
+  | y :: r => if String.leb x y then x :: l else y :: insert_sorted x r
+  end.
+Definition sort_strings (l : list string) : list string := fold_right insert_sorted [] l.
+
+(* the candidates stripped, stripped_1, stripped_2, ... *)
+Definition name_cand (base : string) (i : nat) : string :=
+  match i with O => base | S _ => base ++ "_" ++ nat_digits (Z.of_nat i) end.
+
+(* the while loop: the first candidate that no function uses yet.  Among length used + 1 different candidates
+   one is free; [Err EFuel] stands for "none was" and is excluded by the theorems (never observed). *)
+Definition fresh_name (base : string) (used : list string) : result string :=
+  match find (fun i => negb (str_in (name_cand base i) used)) (seq 0 (S (List.length used))) with
+  | Some i => Ok (name_cand base i)
+  | None => Err EFuel
+  end.
+
+(* the dictionary after the call: the given entries, then one per new function, visited in sorted order *)
+Definition transform_map (given : list (string * string)) (found : list string) : result (list (string * string)) :=
+  fold_left (fun (acc : result (list (string * string))) v =>
+               do m <- acc;
+               if str_in v (map fst m) then Ok m
+               else do n <- fresh_name (symbol_name v) (map snd m); Ok (m ++ [(v, n)]))
+            (sort_strings found) (Ok given).
 
 Definition transform_text (expression : string) (m : list (string * string)) : string :=
   t2s (fold_left (fun t kv => replace_all (S (List.length t)) (s2t (fst kv)) (s2t (snd kv)) t) m (s2t expression)).
